@@ -119,12 +119,15 @@ def build_cpp(name, sources, flags=None, libs=None, extra_inc=None, deps=None):
 
 def regen():
     """(T) translate the current headers' constants into lean/M17/Gen"""
-    exe = build_cpp("dump_tables", ["dump_tables.cpp"], flags=["-std=c++20", "-O1", "-DNDEBUG", f"-D{GUARD}"], deps=[])
+    exe = build_cpp("dump_tables", ["dump_tables.cpp"], flags=["-std=c++20", "-O1", "-DNDEBUG", f"-D{GUARD}"], deps=["shim/blaze/Math.h"])
     gen = os.path.join(LEAN, "M17", "Gen")
     with Lock("lake"):
         rc, out = sh([exe, gen], timeout=300)
     if rc != 0:
         raise BuildError("dump_tables failed on the current tree", out[-4000:])
+    rc, out = sh([sys.executable, os.path.join(VERIF, "tools", "gen_taps.py"), REPO, gen], timeout=120)
+    if rc != 0:
+        raise BuildError("gen_taps.py failed on the current tree", out[-4000:])
     # source-text translator for queue.h (access table)
     rc, out = sh([sys.executable, os.path.join(VERIF, "tools", "gen_queue.py"), REPO, gen], timeout=120)
     if rc != 0:
